@@ -370,6 +370,18 @@ func intPromotion(old, arg interface{}, mul bool) (want interface{}, reject bool
 	return res, false, true
 }
 
+// positionalClash: the two dotted paths share their components up to some position where one has a positional
+// component ($, $[], $[identifier]) and the other a field name or array index (MongoDB: "Updating the path 'a.5' would
+// create a conflict at 'a'"). Two different positional components, or two different names, do not clash.
+func positionalClash(a, b string) bool {
+	positional := func(c string) bool { return c == "$" || strings.HasPrefix(c, "$[") }
+	as, bs := strings.Split(a, "."), strings.Split(b, ".")
+	for len(as) > 0 && len(bs) > 0 && as[0] == bs[0] {
+		as, bs = as[1:], bs[1:]
+	}
+	return len(as) > 0 && len(bs) > 0 && positional(as[0]) != positional(bs[0])
+}
+
 func init() {
 	run.Register(&run.Stream{
 		Name: "apply",
@@ -439,7 +451,8 @@ func init() {
 				}
 				add("C20", "mongokit.Apply panics: "+out.panicv, w, "")
 			}
-			// literal (non-positional) update paths and whether two of them are equal or prefix-related
+			// literal update paths and whether two of them conflict as MongoDB defines it: equal or prefix-related, or — at the
+			// first component where they differ — a positional component ($, $[], $[id]) against a field name / index
 			var litPaths []string
 			for _, e := range upd {
 				if cd, ok := e.Value.(bson.D); ok {
@@ -459,10 +472,13 @@ func init() {
 					if i < j && (litPaths[i] == litPaths[j] || strings.HasPrefix(litPaths[i], litPaths[j]+".") || strings.HasPrefix(litPaths[j], litPaths[i]+".")) {
 						conflicting = true
 					}
+					if i < j && positionalClash(litPaths[i], litPaths[j]) {
+						conflicting = true
+					}
 				}
 			}
 			if conflicting && !malformed && out.panicv == "" && !out.err {
-				add("C11", "update with conflicting (equal or prefix-related) paths is accepted", "conflict-accepted", strings.Join(litPaths, ","))
+				add("C11", "update with conflicting (equal, prefix-related or positional-vs-field) paths is accepted", "conflict-accepted", strings.Join(litPaths, ","))
 			}
 			if out.panicv == "" && !out.err && !malformed && !conflicting {
 				// every recorded change holds in the result (C08's changes_cover, C11)
